@@ -28,12 +28,16 @@ Report-only (counted, never a verdict): cuts inside a nested body that itself ca
 graph; regions of structural models whose original order is not topological (the cloner cannot build them);
 an initializer given as boundary input that is kept as initializer as well (input with default value - the
 statement only asks for 'every initializer they need'); a boundary input that is also produced by a needed
-multi-output node (duplicate name in the result); analysis rooted at a nested graph.
+multi-output node (the result then has a graph input and a node output of the same name: the reference
+evaluator runs it, onnxruntime rejects it as 'Duplicate definition of name' - counted as cannot-run).
+onnxruntime is not used on sources containing BatchNormalization(training_mode=1) (probe: it updates the
+mean/var input buffers in place, so an initializer returned as output differs from the model).
 
 Monitor 2 (capture analysis).  ``onnx_ir.analysis.analyze_implicit_usage(graph)`` on the main graph and every
 function body of gen_exec models and of gen_ir structural models (well scoped, nesting depth <= 3, GRAPH and
-GRAPHS attributes): every nested graph must be a key (the docstring promises a mapping from *each* sub-graph),
-and its set must equal, by identity, {values used in the graph or deeper that are defined in neither}.
+GRAPHS attributes), and on up to three nested graphs per root that have nested graphs of their own: every
+nested graph must be a key (the docstring promises a mapping from *each* sub-graph), and its set must equal,
+by identity, {values used in the graph or deeper that are defined in neither}; raising is a violation.
 
 Signatures are mechanism-level and derived from the *shrunk* cut (outputs/inputs dropped, region cut down by
 extra boundary inputs, while the same clause fails): ``extract|<clause>|<class>`` / ``implicit-usage|...``.
@@ -84,6 +88,11 @@ ASSUMPTIONS = [
 ]
 
 EXHAUSTIVE_MAX_VALUES = 7
+# An initializer that is given as boundary input comes back as input AND initializer (an input with a default value;
+# _extractor.py:59 does this on purpose for graphs and views, not for functions).  The statement asks for 'every
+# initializer they need' and is silent on this, so it is counted (report_only_boundary_initializer_kept_as_initializer);
+# set to True to judge it as 'extract|initializer-extra|boundary-input-kept-as-initializer'.
+STRICT_BOUNDARY_INITIALIZER = bool(int(os.environ.get("VF_C18_STRICT_BOUNDARY_INITIALIZER", "0")))
 SMALL_FEATURES = ["if", "loop", "fn", "fn_nested", "captured_only", "subgraph_init", "init_is_input", "optional_io",
                   "out_init", "out_alias_input", "const_in_branch", "identity_outer_branch", "identity_input_branch",
                   "missing_value_info", "unused_init", "consts_all_forms"]
@@ -91,32 +100,42 @@ SMALL_FEATURES = ["if", "loop", "fn", "fn_nested", "captured_only", "subgraph_in
 
 def plan(tier: str) -> dict:
     quick = tier == "quick"
+    # sizing (measured): ~0.32 s CPU per case -> quick ~35 s wall on 16 idle cores; on a loaded machine the shards stop
+    # at budget_s and the floors below (<= 1/3 of what a run at load average 40 reached) must still hold
+    f = 1 if quick else 8
     return {
-        "cases": 560 if quick else 16000,
+        "cases": 1700 if quick else 20000,
         "shards": 16,
-        "budget_s": 36 if quick else 430,
+        "budget_s": 38 if quick else 430,
         "floors": {
-            "cuts_judged": 6000 if quick else 100000,
-            "covered_returned": 2500 if quick else 40000,
-            "uncovered_rejected": 700 if quick else 12000,
-            "uncovered_class:captured-input": 25 if quick else 400,
-            "regions_needing_capture": 250 if quick else 4000,
-            "regions_needing_capture_depth>=2": 20 if quick else 300,
-            "regions_needing_capture_GRAPHS": 8 if quick else 100,
-            "cuts_by_name_or_mixed": 1500 if quick else 25000,
-            "cuts_on:function": 300 if quick else 5000,
-            "cuts_on:view": 500 if quick else 8000,
-            "cuts_on:subview": 100 if quick else 1500,
-            "exhaustive_graphlikes": 30 if quick else 500,
-            "exec_compared": 1200 if quick else 20000,
-            "exec_compared:ort": 80 if quick else 1200,
-            "identity_walks": 2500 if quick else 40000,
-            "implicit_roots_checked": 150 if quick else 2500,
-            "implicit_nested_graphs_checked": 300 if quick else 5000,
-            "implicit_captures_used_deeper": 40 if quick else 600,
+            "cuts_judged": 60000 * f,
+            "covered_returned": 30000 * f,
+            "uncovered_rejected": 20000 * f,
+            "uncovered_class:captured-input": 100 * f,
+            "regions_needing_capture": 1500 * f,
+            "regions_needing_capture_depth>=2": 150 * f,
+            "regions_needing_capture_GRAPHS": 100 * f,
+            "regions_with_initializer_needed_only_by_nested_body": 100 * f,
+            "cuts_by_name_or_mixed": 25000 * f,
+            "cuts_on:function": 5000 * f,
+            "cuts_on:view": 2000 * f,
+            "cuts_on:subview": 1500 * f,
+            "cuts_on:nested": 1000 * f,
+            "exhaustive_graphlikes": 60 * f,
+            "exec_compared": 5000 * f,
+            "exec_compared:ort": 300 * f,
+            "identity_walks": 30000 * f,
+            "implicit_roots_checked": 100 * f,
+            "implicit_nested_graphs_checked": 150 * f,
+            "implicit_captures_used_deeper": 15 * f,
+            "implicit_nested_via:GRAPHS": 8 * f,
         },
-        "min_nontrivial": 100 if quick else 2000,
-        "params": {"cuts_big": 26 if quick else 32, "exec_per_graphlike": 14 if quick else 18, "ort_per_model": 6 if quick else 8},
+        "min_nontrivial": 150 * f,
+        "params": {"cuts_big": 40 if quick else 48, "exec_per_graphlike": 14 if quick else 18, "ort_per_model": 6 if quick else 8,
+                   # allowance for ALL-cuts enumeration of 5..7-value graph-likes (<= 4 values: always): a start credit plus
+                   # a credit per case, so that the enumeration is spread over the shard instead of eating its first minute
+                   "exhaustive_start": 6000 if quick else 20000, "exhaustive_per_case": 260 if quick else 130,
+                   "exhaustive_cap": 20000},
     }
 
 
@@ -188,7 +207,10 @@ def random_cut(gl: OR.GraphLike, rng: random.Random):
     vals = gl.values
     node_outs = [v for v in vals if id(v) in gl.prod]
     r = rng.random()
-    if r < 0.62 and node_outs:
+    sub_outs = [v for v in node_outs if id(gl.prod[id(v)]) in gl.scope.children_of]
+    if r < 0.28 and sub_outs:
+        outs = rng.sample(sub_outs, min(len(sub_outs), rng.choice([1, 1, 2])))  # outputs of If/Loop-like nodes
+    elif r < 0.62 and node_outs:
         outs = rng.sample(node_outs, min(len(node_outs), rng.choice([1, 1, 1, 2, 3])))
     elif r < 0.82 and [v for v in gl.outputs if v.name]:
         cands = _dedupe([v for v in gl.outputs if v.name])
@@ -322,19 +344,26 @@ def _why_class(reasons: set[str]) -> str:
     return cls
 
 
-def cut_class(gl: OR.GraphLike, c: OR.Closure, ins, outs) -> str:
+def _UNC_ORDER(cls: str):
+    base = ["direct-input", "output-itself", "captured-input"].index(cls.split("|")[0])
+    return (base, cls.count("|"), cls)
+
+
+def cut_features(gl: OR.GraphLike, c: OR.Closure, ins, outs) -> list[str]:
+    """What is special about a (shrunk) cut, most specific first."""
     feats = []
     reasons = set()
     for s in list(c.why.values()) + list(c.init_why.values()) + list(c.unc_why.values()):
         reasons |= s
     caps = [r for r in reasons if r.startswith("capture")]
+    if any("GRAPHS" in r.split(":")[2] for r in caps):
+        feats.append("capture(GRAPHS)")
+    if any(all(r.startswith("capture") for r in s) for s in c.init_why.values()):
+        feats.append("initializer-needed-only-by-nested-body")
+    if any(int(r.split(":")[1]) >= 2 for r in caps):
+        feats.append("capture-depth>=2")
     if caps:
-        f = "capture"
-        if any("GRAPHS" in r.split(":")[2] for r in caps):
-            f += "(GRAPHS)"
-        if any(int(r.split(":")[1]) >= 2 for r in caps):
-            f += "-depth>=2"
-        feats.append(f)
+        feats.append("capture")
     in_ids = {id(v) for v in ins}
     if any(id(v) in gl.init_ids for v in ins):
         feats.append("boundary-initializer")
@@ -342,11 +371,18 @@ def cut_class(gl: OR.GraphLike, c: OR.Closure, ins, outs) -> str:
         feats.append("partial-multi-output")
     if any(id(o) in in_ids for o in outs):
         feats.append("output-in-inputs")
-    elif any(id(o) in gl.init_ids for o in outs):
+    if any(id(o) in gl.init_ids and id(o) not in in_ids for o in outs):
         feats.append("output-is-initializer")
     if not c.nodes:
         feats.append("empty-region")
-    return "+".join(feats) or "plain"
+    if c.inits:
+        feats.append("needs-initializer")
+    return feats or ["plain"]
+
+
+def cut_class(gl: OR.GraphLike, c: OR.Closure, ins, outs) -> str:
+    """The most specific feature of the shrunk cut names the class (all features go into the message)."""
+    return cut_features(gl, c, ins, outs)[0]
 
 
 def _node_desc(n: ir.Node, depth: int = 0):
@@ -449,9 +485,10 @@ def judge_cut(env: Env, gl: OR.GraphLike, ins, outs, in_by_name, out_by_name, *,
 
     # --- uncovered: must raise ----------------------------------------------------------------------
     if not c.covered:
-        classes = sorted({_why_class(c.unc_why[k]) for k in c.uncovered})
+        classes = sorted({_why_class(c.unc_why[k]) for k in c.uncovered}, key=_UNC_ORDER)
         for cl in classes:
             out.events.append("uncovered_class:" + cl.split("|")[0])
+        classes = classes[:1]  # the most basic way in which the cut is uncovered names the mechanism
         if out.raised is None:
             out.violations.append(("uncovered-not-rejected", {"classes": classes,
                                                                "uncovered": sorted(v.name for v in c.uncovered.values())}))
@@ -513,8 +550,10 @@ def judge_cut(env: Env, gl: OR.GraphLike, ins, outs, in_by_name, out_by_name, *,
     for name in got_inits:
         if name in exp_inits:
             continue
-        if name in boundary_names:
+        if name in boundary_names and not STRICT_BOUNDARY_INITIALIZER:
             out.events.append("report_only_boundary_initializer_kept_as_initializer")
+        elif name in boundary_names:
+            out.violations.append(("initializer-extra", {"name": name, "why": "boundary-input-kept-as-initializer"}))
         else:
             src = gl.by_name.get(name)
             kind = "unused-source-initializer" if src is not None and id(src) in gl.init_ids else "not-a-source-initializer"
@@ -639,48 +678,62 @@ def _same_failure(o: Outcome, clause: str, exc: str | None) -> bool:
     return False
 
 
-def shrink_cut(judge, gl: OR.GraphLike, ins, outs, clause: str, exc: str | None, budget: int = 160):
-    """Greedy 1-minimal cut for the same clause: drop outputs, cut the region down by promoting values of the
-    region to boundary inputs / outputs, drop inputs."""
+def shrink_cut(judge, gl: OR.GraphLike, ins, outs, clause: str, exc: str | None, budget: int = 600):
+    """Greedy minimal cut for the same clause (and raise site): every accepted step strictly decreases
+    (#nodes of the brute-force region, #outputs, #inputs) - a single output, inputs dropped, the output moved
+    upstream, the region cut down by promoting one of its values to a boundary input."""
     tests = 0
 
-    def fails(i, o):
+    def measure(i, o):
+        return (len(OR.closure(gl, i, o).nodes), len(o), len(i))
+
+    def fails(i, o, best):
         nonlocal tests
+        if not o or measure(i, o) >= best:
+            return False
         tests += 1
-        if tests > budget or not o:
+        if tests > budget:
             return False
         return _same_failure(judge(i, o), clause, exc)
 
-    changed = True
-    while changed and tests <= budget:
-        changed = False
-        for k in range(len(outs)):
-            cand = outs[:k] + outs[k + 1:]
-            if cand and fails(ins, cand):
-                outs, changed = cand, True
+    progress = True
+    while progress and tests <= budget:
+        progress = False
+        best = measure(ins, outs)
+        if len(outs) > 1:
+            for v in outs:
+                if fails(ins, [v], best):
+                    outs, progress = [v], True
+                    break
+            if progress:
+                continue
+            for k in range(len(outs)):
+                cand = outs[:k] + outs[k + 1:]
+                if fails(ins, cand, best):
+                    outs, progress = cand, True
+                    break
+            if progress:
+                continue
+        for k in range(len(ins)):
+            cand = ins[:k] + ins[k + 1:]
+            if fails(cand, outs, best):
+                ins, progress = cand, True
                 break
-        if changed:
+        if progress:
             continue
         c = OR.closure(gl, ins, outs)
         region_vals = [o for n in c.nodes for o in n.outputs if o.name]
         in_ids = {id(v) for v in ins}
         out_ids = {id(v) for v in outs}
-        for v in region_vals:  # a single earlier output
-            if id(v) not in out_ids and len(region_vals) > 1 and fails(ins, [v]):
-                outs, changed = [v], True
+        for v in region_vals:  # the output moved upstream
+            if id(v) not in out_ids and fails(ins, [v], best):
+                outs, progress = [v], True
                 break
-        if changed:
+        if progress:
             continue
-        for v in reversed(region_vals):  # an extra boundary input
-            if id(v) not in in_ids and id(v) not in out_ids and fails(ins + [v], outs):
-                ins, changed = ins + [v], True
-                break
-        if changed:
-            continue
-        for k in range(len(ins)):
-            cand = ins[:k] + ins[k + 1:]
-            if fails(cand, outs):
-                ins, changed = cand, True
+        for v in reversed(region_vals):  # an extra boundary input that cuts the region down
+            if id(v) not in in_ids and id(v) not in out_ids and fails(ins + [v], outs, best):
+                ins, progress = ins + [v], True
                 break
     return ins, outs
 
@@ -723,10 +776,10 @@ def report(ctx, model_key: dict, env: Env, gl: OR.GraphLike, ins, outs, in_by_na
         exc = info.get("exc")
         name_mode_in = dict((id(v), b) for v, b in zip(ins, in_by_name))
         name_mode_out = dict((id(v), b) for v, b in zip(outs, out_by_name))
-        default_mode = bool(in_by_name and all(in_by_name)) or bool(out_by_name and all(out_by_name) and not in_by_name)
+        default_mode = all(list(in_by_name) + list(out_by_name))  # values the shrinker adds are named like the rest
 
-        def judge(i, o, _e=env, _g=gl):
-            return make_judge(_e, _g)(i, o, [name_mode_in.get(id(v), default_mode) for v in i],
+        def judge(i, o, _e=env, _g=gl, clause=clause):
+            return make_judge(_e, _g, clause == "outputs-differ")(i, o, [name_mode_in.get(id(v), default_mode) for v in i],
                                       [name_mode_out.get(id(v), default_mode) for v in o])
 
         s_ins, s_outs = shrink_cut(judge, gl, list(ins), list(outs), clause, exc)
@@ -743,6 +796,7 @@ def report(ctx, model_key: dict, env: Env, gl: OR.GraphLike, ins, outs, in_by_na
                 replay = smaller
         region = [(n.op_type, [o.name for o in n.outputs]) for n in final.closure.nodes][:12]
         msg = (f"{clause}: {describe_cut(gl, s_ins, s_outs, s_in_flags, s_out_flags)}\n  details: {sinfo}\n"
+               f"  features of the shrunk cut: {cut_features(gl, final.closure, s_ins, s_outs)}\n"
                f"  brute-force region (original order): {region}; initializers needed: {sorted(v.name for v in final.closure.inits.values())}; "
                f"uncovered: {sorted(v.name for v in final.closure.uncovered.values())}\n"
                f"  outcome: {'raised ' + repr(_root_exception(final.raised))[:300] if final.raised is not None else 'returned a graph'}\n"
@@ -754,25 +808,43 @@ def report(ctx, model_key: dict, env: Env, gl: OR.GraphLike, ins, outs, in_by_na
 # =================================================================================================
 # capture analysis
 # =================================================================================================
-def check_implicit(ctx, model_key: dict, root_ref: list, root_graph, counts: Counter) -> bool:
-    """Judge analyze_implicit_usage(root_graph).  Returns True when some capture is used deeper than its graph."""
+def _graph_at(model: ir.Model, root: list, path: list):
+    obj = _root_obj(model, root)
+    obj = obj.graph if isinstance(obj, ir.Function) else obj
+    for i, name, j in path:
+        attr = list(obj)[i].attributes[name]
+        obj = attr.value if attr.type == ir.AttributeType.GRAPH else attr.value[j]
+    return obj
+
+
+def check_implicit(ctx, model_key: dict, root_ref: list, root_graph, counts: Counter, path: list | None = None) -> bool:
+    """Judge analyze_implicit_usage(root_graph).  Returns True when some capture is used deeper than its graph.
+    ``path`` (non-empty) = the analysed graph is itself nested below ``root_ref``; values defined above it are then
+    outer-scope values of every graph below it like any other."""
     exp, tree = OR.brute_force_implicit_usage(root_graph)
-    if tree.captured:
+    path = path or []
+    if tree.captured and not path:
         counts["report_only_root_uses_undefined_values"] += 1
         return False
+    root_class = "root=nested-graph" if path else "root=top-level"
+    counts["implicit_" + root_class] += 1
     # well scoped: every value used in a graph is defined in it or in an enclosing graph of the tree
     if any(s.outer_outputs for s in tree.walk() if s.parent is not None):
         counts["report_only_nested_graph_returns_outer_value"] += 1
-    replay = dict(model_key, task="implicit", root=root_ref)
+    replay = dict(model_key, task="implicit", root=root_ref, path=path)
 
     def fire(sig, msg):
         ctx.count("raw:implicit")
-        ctx.violation(sig, f"analyze_implicit_usage({root_ref}): {msg}\n  model: {model_key}", replay)
+        ctx.violation(sig, f"analyze_implicit_usage({root_ref}{' nested graph at ' + str(path) if path else ''}): {msg}\n"
+                           f"  model: {model_key}", replay)
 
     try:
         got = analyze_implicit_usage(root_graph)
     except Exception as e:  # noqa: BLE001 - the analysis has no documented failure mode on a well-scoped graph
-        fire("implicit-usage|raised|" + _site(e), f"raised {_root_exception(e)!r}")
+        outer = sorted({str(v.name) for c in tree.children for k, (v, _d, _k) in c.captured.items() if k not in tree.defined})
+        text = " ".join(repr(_root_exception(e)).split())[:160]
+        fire(f"implicit-usage|raised|{_site(e)}|{root_class}",
+             f"raised {text}; values used in graphs nested below the analysed graph that are defined above it: {outer}")
         return False
     counts["implicit_roots_checked"] += 1
     if not isinstance(got, dict):
@@ -809,8 +881,8 @@ def check_implicit(ctx, model_key: dict, root_ref: list, root_graph, counts: Cou
         missing = [captured[k] for k in captured if k not in got_ids]
         extra = [v for k, v in got_ids.items() if k not in captured]
         if missing:
-            classes = sorted({("used-in-graph" if d == 0 else ("used-deeper" + ("|depth>=2" if d >= 2 else ""))) for _v, d, _k in missing})
-            fire("implicit-usage|missing|" + "+".join(classes),
+            cls = "used-in-graph" if any(d == 0 for _v, d, _k in missing) else "used-deeper"
+            fire("implicit-usage|missing|" + cls,
                  f"nested graph {g.name!r} at {scope.path()}: missing {[(v.name, 'use depth below graph', d) for v, d, _k in missing]}; "
                  f"expected {sorted(v.name for v, _d, _k in captured.values())}, got {sorted(str(v.name) for v in got_ids.values())}")
         if extra:
@@ -819,20 +891,24 @@ def check_implicit(ctx, model_key: dict, root_ref: list, root_graph, counts: Cou
             fire("implicit-usage|extra|" + "+".join(classes),
                  f"nested graph {g.name!r} at {scope.path()}: extra {[str(v.name) for v in extra]}; expected "
                  f"{sorted(v.name for v, _d, _k in captured.values())}")
-    # the analysis rooted at a nested graph: the statement does not say what 'outer scope' means there
-    nested_roots = [s for s in tree.walk() if s.parent is not None and s.children][:2]
-    for s in nested_roots:
-        try:
-            analyze_implicit_usage(s.graph)
-            counts["report_only_analysis_rooted_at_nested_graph:returned"] += 1
-        except Exception as e:  # noqa: BLE001
-            counts["report_only_analysis_rooted_at_nested_graph:" + type(e).__name__] += 1
+    # the same analysis rooted at nested graphs that have nested graphs of their own
+    if not path:
+        for sc in [x for x in tree.walk() if x.parent is not None and x.children][:3]:
+            check_implicit(ctx, model_key, root_ref, sc.graph, counts, sc.path())
     return deeper
 
 
 # =================================================================================================
 # models
 # =================================================================================================
+class _NestingIRGen(GI.IRGen):
+    """gen_ir with a denser nesting: the generator asks ``maybe(0.22)`` exactly when it decides whether a node
+    gets a GRAPH/GRAPHS attribute."""
+
+    def maybe(self, p) -> bool:
+        return super().maybe(0.5 if p == 0.22 else p)
+
+
 def build_model(key: dict):
     """(model, case-or-None) from a JSON-able model key.  Deterministic."""
     if key["kind"] == "exec":
@@ -840,18 +916,18 @@ def build_model(key: dict):
         case, reason = GE.admit(model, info, random.Random(f"{key['seed']}:inputs"), 2)
         return model, case, reason
     rng = random.Random("C18:ir:" + key["gen_key"])
-    gen = GI.IRGen(rng, max_depth=key.get("max_depth", 3), with_functions=True, with_meta=False)
+    gen = _NestingIRGen(rng, max_depth=key.get("max_depth", 3), with_functions=True, with_meta=False)
     model = gen.model()
     GI.uniquify_names(model)
     return model, None, "structural"
 
 
 def draw_model_key(ctx, case_id: int, rng: random.Random) -> dict:
-    r = case_id % 20
-    if r < 8:
+    r = rng.random()
+    if r < 0.35:
         feats = sorted(rng.sample(SMALL_FEATURES, rng.choice([0, 1, 1, 2, 2, 3])))
         return {"kind": "exec", "flavour": "small", "seed": rng.getrandbits(48), "size": rng.choice([0, 0, 1, 1, 2]), "features": feats}
-    if r < 15:
+    if r < 0.75:
         seed = rng.getrandbits(48)
         feats = sorted(GE.choose_features(random.Random(f"{seed}:features")))
         return {"kind": "exec", "flavour": "big", "seed": seed, "size": rng.choice([2, 3, 5, 8]), "features": feats}
@@ -908,13 +984,16 @@ def run_graphlike(ctx, key: dict, env: Env, case, gl: OR.GraphLike, rng: random.
         return
     capturing_nested = gl.kind == "nested" and bool(gl.free)
     # --- which cuts -----------------------------------------------------------------------------------
-    exhaustive = (n <= EXHAUSTIVE_MAX_VALUES and not capturing_nested and not gl.ambiguous_names
-                  and (gl.kind in ("graph", "function", "nested") or n <= 5))
-    if exhaustive and n == EXHAUSTIVE_MAX_VALUES and state["exhaustive7"] >= state["exhaustive7_max"]:
-        exhaustive = False
+    # all cuts: 2^n * (2^n - 1); a per-shard credit (a count, not a time) keeps 5..7-value graphs from eating the shard
+    n_all = (1 << n) * ((1 << n) - 1) if n <= EXHAUSTIVE_MAX_VALUES else 0
+    exhaustive = (0 < n_all and not capturing_nested and not gl.ambiguous_names
+                  and (gl.kind in ("graph", "function", "nested") or n <= 4)
+                  and (n <= 4 or n_all <= state["exhaustive_left"] or (n == EXHAUSTIVE_MAX_VALUES and state["free7"] > 0)))
     if exhaustive:
-        if n == EXHAUSTIVE_MAX_VALUES:
-            state["exhaustive7"] += 1
+        if n > 4 and n_all <= state["exhaustive_left"]:
+            state["exhaustive_left"] -= n_all
+        elif n > 4:
+            state["free7"] -= 1  # a few 7-value graph-likes per shard are enumerated whatever the credit says
         cuts = [(i, o, "all") for i, o in all_cuts(gl)]
         counts["exhaustive_graphlikes"] += 1
         counts[f"exhaustive_graphlikes:values={n}"] += 1
@@ -947,11 +1026,15 @@ def run_graphlike(ctx, key: dict, env: Env, case, gl: OR.GraphLike, rng: random.
             seen_cuts.add(ck)
         run_exec = None
         events_exec: list[str] = []
+        evaluators: list[str] = []
         if source is not None and exec_budget > 0 and (exec_prob >= 1.0 or rng.random() < exec_prob):
             evaluators = [e for e in GE.EVALUATORS if source.ran(e)]
             if "ort" in evaluators and "ref" in evaluators and state["ort_left"] <= 0:
                 evaluators = ["ref"]
+            elif evaluators == ["ort"] and state["ort_left"] <= -3 * int(params.get("ort_per_model", 6)):
+                evaluators = []  # only onnxruntime can run this source: a bounded number of sessions per model
 
+        if evaluators:
             def run_exec(o, _src=source, _outs=outs, _ev=evaluators, _events=events_exec):
                 v = exec_clause(env, _src, _outs, o.result, _ev, _events)
                 if v is not None:
@@ -978,10 +1061,10 @@ def run_graphlike(ctx, key: dict, env: Env, case, gl: OR.GraphLike, rng: random.
         if not outcome.closure.covered or ("regions_needing_capture" in outcome.events and len(outcome.closure.nodes) >= 2):
             nontrivial = True
         if outcome.violations:
-            def make_judge(e, g, _src=source):
+            def make_judge(e, g, with_exec=False, _src=source):
                 def j(i, o, fi, fo):
                     rx = None
-                    if _src is not None:
+                    if _src is not None and with_exec:
                         evs = [x for x in GE.EVALUATORS if _src.ran(x)]
 
                         def rx(oc, _o=o):
@@ -1045,8 +1128,11 @@ def run(ctx) -> None:
         except OSError:
             pass
     counts: Counter = Counter()
-    state = {"counts": counts, "exhaustive7": 0, "exhaustive7_max": 2 if ctx.tier == "quick" else 40, "ort_left": 0}
+    state = {"counts": counts, "exhaustive_left": int(ctx.params.get("exhaustive_start", 6000)), "ort_left": 0,
+             "free7": 1 if ctx.tier == "quick" else 4}
+    per_case, cap = int(ctx.params.get("exhaustive_per_case", 260)), int(ctx.params.get("exhaustive_cap", 20000))
     for case_id in ctx.case_ids():
+        state["exhaustive_left"] = min(cap, state["exhaustive_left"] + per_case)
         rng = ctx.rng(case_id)
         key = draw_model_key(ctx, case_id, rng)
         run_model(ctx, key, rng, state)
@@ -1116,9 +1202,10 @@ def replay(replay_data, ctx) -> None:
     _quiet()
     if replay_data.get("task") == "implicit":
         model, _case, _r = build_model(replay_data)
-        obj = _root_obj(model, replay_data["root"])
-        graph = obj.graph if isinstance(obj, ir.Function) else obj
-        check_implicit(ctx, {k: replay_data[k] for k in replay_data if k not in ("task", "root")}, replay_data["root"], graph, Counter())
+        path = replay_data.get("path") or []
+        graph = _graph_at(model, replay_data["root"], path)
+        check_implicit(ctx, {k: replay_data[k] for k in replay_data if k not in ("task", "root", "path")}, replay_data["root"], graph,
+                       Counter(), path)
         return
     got = _replay_extract(replay_data)
     if got is None:
